@@ -107,6 +107,11 @@ class SceneGraph:
             )
             if "geometry" in kwargs:
                 forest.node_data[frame_to]["geometry"] = kwargs["geometry"]
+                # the edge leading to a frame holds a copy of the reference
+                parent = forest.parents.get(frame_to)
+                if (parent, frame_to) in forest.edge_data:
+                    forest.edge_data[(parent, frame_to)]["geometry"] = kwargs["geometry"]
+                forest._hash = None
             return
 
         # add the edges for the transforms
